@@ -90,6 +90,7 @@ type cliOpts struct {
 	args   []Value          // argument values of the interpreted function (nil: symbolic)
 	fields map[string]Value // values of parsedArgs fields read before they are stored (nil: symbolic)
 	zero   bool             // fields not listed are the zero value instead of symbolic
+	happy  bool             // every error compared with nil is nil (the path on which all calls succeed)
 	calls  map[string]Value // results of opaque calls by callee name (cmd.parseArgs, cmd.run, Execute, …)
 }
 
@@ -195,6 +196,14 @@ func (c *Ctx) cliInterp(fd *ast.FuncDecl, opts cliOpts) (outs []argOutcome, unde
 			if o, ok := c.objOf(e).(*types.Var); ok && o.IsField() {
 				if v, ok := p.fields[c.fieldPath(e)]; ok {
 					return v, true
+				}
+				// the file words kept in a field of a helper struct (never assigned before the loop)
+				if opts.tail && isStringSlice(o.Type()) {
+					list := Value{K: vList}
+					for _, w := range opts.rest {
+						list.Tup = append(list.Tup, constV(constant.MakeString(w)))
+					}
+					return list, true
 				}
 			}
 		case *ast.CompositeLit:
@@ -336,6 +345,31 @@ func (c *Ctx) cliInterp(fd *ast.FuncDecl, opts cliOpts) (outs []argOutcome, unde
 			}
 		}
 		return Value{}, false
+	}
+	h.Decide = func(in *Interp, st *State, cond ast.Expr) tri {
+		if !opts.happy {
+			return triUnknown
+		}
+		be, ok := stripParens(cond).(*ast.BinaryExpr)
+		if !ok || (be.Op != token.EQL && be.Op != token.NEQ) {
+			return triUnknown
+		}
+		var other ast.Expr
+		switch {
+		case isNilIdent(be.Y):
+			other = be.X
+		case isNilIdent(be.X):
+			other = be.Y
+		default:
+			return triUnknown
+		}
+		if !isErrorType(c.typeOf(other)) {
+			return triUnknown
+		}
+		if be.Op == token.EQL {
+			return triTrue
+		}
+		return triFalse
 	}
 	h.DecideV = func(in *Interp, st *State, cond ast.Expr, v Value) tri {
 		if isTag(v, "ok") {
